@@ -128,7 +128,7 @@ func c20History(r *report.R, id string) {
 	g := newHistGen(h, r.Rand(id))
 	nblocks := r.Pick(30, 150)
 	if strings.HasPrefix(id, "gov/") {
-		g.campEvery, g.campFailEvery, g.campKinds, g.slowBlocks = 2, 2, []int{0, 1, 2, 3, 3, 3, 4, 5}, true
+		g.campEvery, g.campFailEvery, g.campKinds, g.slowBlocks = 2, 2, []int{0, 1, 2, 3, 3, 3, 4, 5, 7, 7}, true
 		nblocks = r.Pick(45, 120)
 	}
 	for b := 0; b < nblocks; b++ {
